@@ -220,3 +220,46 @@ Print Assumptions g_recur_fetch_forward_eq.
 Print Assumptions g_recur_fetch_forward_unbounded.
 Print Assumptions g_recur_fetch_reverse_eq.
 Print Assumptions g_recur_fetch_reverse_unbounded.
+
+(* ------------------------------------------------------------------------------------------ *)
+(* _get_safe_anchor: base-anchor selection, daily and weekly branches                          *)
+
+(* Model/Recur.v's view of the datetime values this function handles: the anchor is used through
+   its date only (and then set to midnight by the caller), so DT = DATE = a day number, a
+   timedelta = a number of days.  1969-12-29 is day -3, the epoch day 0. *)
+Definition g_safe_anchor_of (r : rule) (sd : Z) : res Z :=
+  g_recur_safe_anchor (DT := Z) (DATE := Z) (TD := Z)
+    (r_freq r) (r_interval r) (r_anchor r) 0
+    (local_day (r_zone r)) days_from_civil (fun d => d) Z.sub (fun t => t) (fun d => d) (fun w => 7 * w) Z.add sd.
+
+Lemma base_anchor_sel r :
+  (if negb (is_none (r_anchor r)) then local_day (r_zone r) (ozd (r_anchor r))
+   else if freq_eqb (r_freq r) Weekly then days_from_civil 1969 12 29 else 0) = base_day r.
+Proof.
+  unfold base_day. destruct (r_anchor r); cbn [is_none negb ozd]; [reflexivity|].
+  destruct (r_freq r); reflexivity.
+Qed.
+
+(* HEADLINE: for daily and weekly patterns the translated _get_safe_anchor returns the model's anchor *)
+Theorem g_recur_safe_anchor_eq (r : rule) (sd : Z) :
+  r_freq r = Daily \/ r_freq r = Weekly ->
+  match safe_anchor r sd with
+  | Some d => g_safe_anchor_of r sd = RDone d
+  | None => False
+  end.
+Proof.
+  unfold g_safe_anchor_of, g_recur_safe_anchor, safe_anchor. cbv zeta.
+  rewrite base_anchor_sel.
+  intros [E|E]; rewrite E; cbn [freq_eqb]; reflexivity.
+Qed.
+
+(* monthly / yearly: the untranslated branches are an explicit RSkip, not a value *)
+Theorem g_recur_safe_anchor_skipped (r : rule) (sd : Z) :
+  r_freq r = Monthly \/ r_freq r = Yearly -> g_safe_anchor_of r sd = RSkip.
+Proof.
+  unfold g_safe_anchor_of, g_recur_safe_anchor. cbv zeta.
+  intros [E|E]; rewrite E; reflexivity.
+Qed.
+
+Print Assumptions g_recur_safe_anchor_eq.
+Print Assumptions g_recur_safe_anchor_skipped.
